@@ -103,7 +103,7 @@ func runC01(tier string, r *rng) {
 				for _, uh := range []uint64{3, 5, 6, 9} { // <, =, +1, >+1 relative to trusted height 5
 					for _, tt := range []int64{-hour, hour} {
 						for _, du := range []int64{-10 * min, 0, 10 * min} {
-							for tv := vhdr.VKOk; tv <= vhdr.VKWrap1; tv++ {
+							for tv := vhdr.VKOk; tv <= vhdr.VKJoin1; tv++ {
 								c01Case(pairSpec{tz, uz, 1, uc, 5, uh, tt, tt + du, tv})
 							}
 						}
@@ -114,14 +114,14 @@ func runC01(tier string, r *rng) {
 	}
 	// near-drift times (± 2 s around now+drift: far above scheduling noise of a single call)
 	for _, off := range []int64{driftNs - 2e9, driftNs + 2e9} {
-		for tv := vhdr.VKOk; tv <= vhdr.VKWrap1; tv++ {
+		for tv := vhdr.VKOk; tv <= vhdr.VKJoin1; tv++ {
 			c01Case(pairSpec{false, false, 1, 1, 5, 6, -hour, off, tv})
 			c01Case(pairSpec{false, false, 1, 1, 5, 60, -hour, off, tv})
 		}
 	}
 	// sub-second time relations to the trusted header (same Unix second, ± 1 ns, ± 400 ms)
 	for _, du := range []int64{-1, 1, -400e6, 400e6, -999999999, 999999999} {
-		for tv := vhdr.VKOk; tv <= vhdr.VKWrap1; tv++ {
+		for tv := vhdr.VKOk; tv <= vhdr.VKJoin1; tv++ {
 			c01Case(pairSpec{false, false, 1, 1, 5, 6, -hour, -hour + du, tv})
 			c01Case(pairSpec{false, false, 1, 1, 5, 9, -hour + 500e6, -hour + 500e6 + du, tv})
 		}
@@ -136,7 +136,7 @@ func runC01(tier string, r *rng) {
 			tz: r.chance(1, 12), uz: r.chance(1, 12),
 			tc: 1 + r.intn(3), uc: 1 + r.intn(3),
 			th: uint64(1 + r.intn(6)), uh: uint64(1 + r.intn(9)),
-			tv: uint8(1 + r.intn(6)),
+			tv: uint8(1 + r.intn(8)),
 		}
 		if r.chance(1, 20) {
 			p.th = ^uint64(0) - uint64(r.intn(3)) // heights near 2^64 (adjacency wrap)
@@ -269,7 +269,41 @@ func c02CaseT(th uint64, first uint64, kinds []int) {
 	emit("C02 now=%d drift=%d th=%d tt=%d us=%s => len=%d prefix=%d err=%s", now, driftNs, th, now-hour, in, len(res), b2i(pref), verrTag(err))
 }
 
+// c02History: VerifyRange is a function of its arguments only. A range [h1 h2 h3] verifies; afterwards [f1 h2 h3] is
+// verified, where f1 is ANOTHER header of h1's height (also valid against the trusted header) to which h2 is not
+// linked: the second call returns [f1] and a hard failure, whatever happened in earlier calls.
+func c02History() {
+	now := time.Now().UnixNano()
+	hour := int64(time.Hour)
+	t := &vhdr.Header{Chain: "A", H: 5, T: now - hour, VK: vhdr.VKOk}
+	h1 := &vhdr.Header{Chain: "A", H: 6, T: now - hour + 1e9, VK: vhdr.VKLink, Prev: t.Hash()}
+	h2 := &vhdr.Header{Chain: "A", H: 7, T: now - hour + 2e9, VK: vhdr.VKLink, Prev: h1.Hash()}
+	h3 := &vhdr.Header{Chain: "A", H: 8, T: now - hour + 3e9, VK: vhdr.VKLink, Prev: h2.Hash()}
+	f1 := &vhdr.Header{Chain: "A", H: 6, T: now - hour + 1e9, VK: vhdr.VKLink, Prev: t.Hash(), Salt: 77}
+	cls := func(res []*vhdr.Header, err error) string {
+		var ve *header.VerifyError
+		e := "nil"
+		switch {
+		case err == nil:
+		case errors.As(err, &ve) && ve.SoftFailure:
+			e = "soft"
+		case errors.As(err, &ve):
+			e = "hard"
+		default:
+			e = "other"
+		}
+		return itoa(len(res)) + "/" + e
+	}
+	for round := 0; round < 2; round++ {
+		a := cls(header.VerifyRange(t, []*vhdr.Header{h1, h2, h3}))
+		b := cls(header.VerifyRange(t, []*vhdr.Header{f1, h2, h3}))
+		c := cls(header.VerifyRange(t, []*vhdr.Header{h1, h2, h3}))
+		emit("C02 kind=history round=%d => good=%s swapped=%s again=%s", round, a, b, c)
+	}
+}
+
 func runC02(tier string, r *rng) {
+	c02History()
 	// exhaustive: all sequences up to length L over the alphabet, first element adjacent or not
 	L := 4
 	if tier == "thorough" {
